@@ -66,6 +66,9 @@ class Interp:
         self.deadline = None
         self.loop_invs = []
         self.cur_state = None
+        self.pinned = []
+        self.cut_set = self.opts.get('cut_set') or frozenset()
+        self.cuts = {}
 
     # ------------------------------------------------------------------ regions / fresh values
     def new_region(self, st, name, kind='input', min_len=0, elem=1):
@@ -168,6 +171,8 @@ class Interp:
             print(f"--- DEBUG failing {kind} at {loc} ({role}) in {frame.inst.key}: {detail}", file=sys.stderr)
             print(f"    stack: {self.stack}", file=sys.stderr)
             print(f"    store: {self.cur_state.store}", file=sys.stderr)
+        if not ok and len(self.stack) > 1:
+            detail = (detail + ' ' if detail else '') + 'via ' + ' > '.join(x.split('::<')[0].rsplit('::', 2)[-2] + '::' + x.split('::<')[0].rsplit('::', 1)[-1] if '::' in x else x for x in self.stack[-5:])
         self.obs.append(Ob(kind, frame.inst, loc, role, ok, detail, self.root, macros, extra))
 
     def note(self, msg):
@@ -220,6 +225,8 @@ class Interp:
             return LVMem(v, tid)
         if isinstance(v, SliceV):
             return LVSlice(v)
+        if isinstance(v, TermV) and v.t and v.t[0] == 'static':
+            return LVObj(('static', v.t[1]))      # the static itself: an abstract global object
         return LVUnknown(tid)
 
     def nav(self, val, path, tid_hint=None):
@@ -248,17 +255,17 @@ class Interp:
             if base is None:
                 return self.fresh_of_type(st, tid, 'uninit') if not lv.path else self.fresh_of_type(st, tid, 'u')
             v = self.nav(base, lv.path)
-            if v is None:
-                # union read of a non-active / unknown field, or unknown structure
+            if any(step[0] == 'u' for step in lv.path):
                 self.check_union_read(fr, st, base, lv.path, loc)
+            if v is None:
                 return self.fresh_of_type(st, tid, 'fld')
             return v
         if isinstance(lv, LVObj):
             base = st.heap.get(lv.obj)
             v = self.nav(base, lv.path) if base is not None else None
+            if base is not None and any(step[0] == 'u' for step in lv.path):
+                self.check_union_read(fr, st, base, lv.path, loc)
             if v is None:
-                if base is not None:
-                    self.check_union_read(fr, st, base, lv.path, loc)
                 return self.fresh_of_type(st, tid, 'fld')
             return v
         if isinstance(lv, LVMem):
@@ -415,6 +422,11 @@ class Interp:
             if ty['kind'] == 'bool':
                 return BoolV(('c', bool(o['v'])))
             return IntV(C(o['v']))
+        if ck == 'adt':
+            fs = [self.const_val(fr, st, f) for f in o.get('fields', [])]
+            return AdtV(o['ty'], o.get('variant', 0), fs)
+        if ck == 'opaque':
+            return self.fresh_of_type(st, o['ty'], 'const')
         if ck == 'fn':
             c = ty.get('callee')
             return FnV([c['inst']]) if c else FnV(None)
@@ -1115,6 +1127,8 @@ class Interp:
             else:
                 res = self.models.indirect_unknown(self, fr, st, t, fv, args)
                 if res is None:
+                    self.ob('FNPTR', fr, loc, 'call-through-unknown-fn-pointer', False,
+                            'indirect call whose target set is unknown (cannot be analysed)')
                     res = [(st, self.havoc_call(fr, st, t, args))]
                 return self.finish_call(fr, t, res)
         else:
@@ -1130,6 +1144,8 @@ class Interp:
 
     def call_target(self, fr, st, t, key, args):
         callee = self.P.instances.get(key)
+        if key in self.cut_set:
+            return self.cut_call(fr, st, t, key, callee, args)
         m = self.models.lookup(self, key, callee)
         if m is not None:
             r = m(self, fr, st, t, args, key)
@@ -1141,6 +1157,21 @@ class Interp:
             a = self.adapt_args(callee, args, st)
             return self.call_inst(callee, a, st, fr.depth + 1, fr)
         return [(st, self.havoc_call(fr, st, t, args, key))]
+
+    def cut_call(self, fr, st, t, key, callee, args):
+        """call of a *safe public* function that is analysed as a root of its own (for arbitrary
+        arguments of its types): not descended into.  Its result is an arbitrary value of the
+        result type satisfying the type invariants (plus the declared summary, which the callee's
+        own root analysis must prove); everything reachable through `&mut` arguments is havocked."""
+        self.cuts[key] = self.cuts.get(key, 0) + 1
+        for i, a in enumerate(args):
+            if isinstance(a, RefV) and i < callee.arg_count:
+                ty = self.P.types[callee.locals[i + 1]]
+                if ty['kind'] == 'ref' and ty['mut']:
+                    self.store_lv(fr, st, a.lv, self.fresh_of_type(st, ty['to'], 'cut'), ty['to'])
+        ret = self.fresh_of_type(st, callee.locals[0], 'cut')
+        outs = self.models.apply_summary(self, fr, st, t, key, callee, args, ret)
+        return outs
 
     def adapt_args(self, callee, args, st):
         n = callee.arg_count
